@@ -483,6 +483,7 @@ func execHandler(prop string) func(fs *flag.FlagSet) handler {
 
 func init() {
 	handlers["C04"] = execHandler("C04")
+	handlers["C05"] = execHandler("C05")
 	handlers["C01"] = func(fs *flag.FlagSet) handler {
 		return func(tag string, raw []byte, st *Stats, wk *worker) {
 			switch tag {
@@ -516,15 +517,37 @@ func replayExecVector(raw []byte, st *Stats, wk *worker, prop string) {
 		return
 	}
 	vr := graphql.ValidateDocument(&b.Schema, doc, nil)
+	if !vr.IsValid && prop == "C05" && v.Fam == "C05" {
+		// C05 states what happens to non-coercible input: errors, no data, no resolver call
+		for ri := range v.Runs {
+			st.Add("executions", 1)
+			if !v.Runs[ri].Exp.ReqErr {
+				st.Mismatch(Mismatch{What: "C05 validation rejects a literal the specification's coercion accepts: " + vr.Errors[0].Message,
+					Detail: map[string]interface{}{"query": pr.Text}, Vector: raw})
+				return
+			}
+			obs := runDo(b, pr.Text, v.OpName, varsMap(v.Runs[ri].Inputs), newRunFor(b, &v, v.Outs[0], pr))
+			if why := matchResp(v.Runs[ri].Exp, obs, false); why != "" {
+				st.Mismatch(Mismatch{What: "C05 Do: " + why, Detail: map[string]interface{}{"query": pr.Text}, Vector: raw})
+				return
+			}
+			st.Add("agree", 1)
+			st.Distinct("distinct_nontrivial", pr.Text)
+		}
+		return
+	}
 	if !vr.IsValid {
 		// C01 is judged on valid documents only (DESIGN 4.4); C02 decides validity.
 		st.Add("skipped_invalid", 1)
-		if st.Counters["skipped_invalid"] <= 3 {
+		if st.Get("skipped_invalid") <= 3 {
 			st.Note("skipped (real validator rejects): " + pr.Text + " :: " + vr.Errors[0].Message)
 		}
 		return
 	}
 	switch prop {
+	case "C05":
+		b, _ := json.Marshal(v.Runs[0].Inputs)
+		st.Distinct("distinct_nontrivial", pr.Text+string(b))
 	case "C04":
 		if len(v.Outs) > 0 && len(v.Outs[0]) > 0 {
 			b, _ := json.Marshal(v.Outs[0])
@@ -550,6 +573,15 @@ func replayExecVector(raw []byte, st *Stats, wk *worker, prop string) {
 	}
 	account := func(ep string, ri int, obs observed) bool {
 		st.Add("executions", 1)
+		if v.Runs[ri].Exp.Unspec {
+			// the editions disagree on this input (DESIGN 4.2): only crash-freedom is required
+			st.Add("unspecified_not_asserted", 1)
+			if obs.Panic != "" {
+				report(ep, ri, "panic escaped: "+obs.Panic, obs)
+				return false
+			}
+			return true
+		}
 		why, devs := judge(&v.Runs[ri], obs, true)
 		if why != "" {
 			report(ep, ri, why, obs)
